@@ -208,6 +208,10 @@ def run_check(pid: str, tier: str, seed: int, replay: str | None) -> int:
     import importlib
 
     enable_hooks()
+    if str(REPO) != "/repo":
+        # scratch worktree of pasqal-io/emulators (mutation testing): shadow the editable install
+        sys.path.insert(0, str(REPO))
+        os.environ["PYTHONPATH"] = str(REPO) + os.pathsep + os.environ.get("PYTHONPATH", "")
     os.environ.setdefault("OMP_NUM_THREADS", "1")
     os.environ.setdefault("MKL_NUM_THREADS", "1")
     sys.path.insert(0, str(ROOT))
